@@ -331,6 +331,26 @@ def process_unit(path, tier, seed):
     return rec
 
 
+_VE = None
+
+
+def verified_elsewhere():
+    """suffixes (item id without unit) of all items whose body is verified in some unit"""
+    global _VE
+    if _VE is None:
+        _VE = set()
+        for p in sorted(glob.glob(os.path.join(UNITS_DIR, "*.vrs"))):
+            unit = os.path.splitext(os.path.basename(p))[0]
+            try:
+                meta = gen.generate(p, os.path.join(GEN, "_scan_%s.rs" % unit), vacuity=False)
+            except AnchorLost:
+                continue
+            for it in meta["items"]:
+                if not it["trusted"]:
+                    _VE.add(it["id"].split("/", 1)[1])
+    return _VE
+
+
 def load_known():
     p = os.path.join(VERIF, "known_findings.json")
     if not os.path.exists(p):
@@ -399,6 +419,11 @@ def main(argv):
             undecided.append("%s: %s %s" % (rec["unit"], rec["status"], (rec.get("detail") or "; ".join(rec["rejected"] + rec["rlimit"] + rec["vacuous"]))[:600]))
         for it in rec["items"]:
             if it["trusted"]:
+                if it.get("elsewhere"):
+                    suffix = it["id"].split("/", 1)[1]
+                    if suffix in verified_elsewhere():
+                        continue
+                    undecided.append("%s: contract of %s is used but its body is verified in no unit" % (rec["unit"], suffix))
                 assumptions.add("%s: trusted (body not verified) %s" % (rec["unit"], it["id"]))
                 continue
             rel = pid in it["props"] or pid == "C04"
